@@ -205,12 +205,19 @@ def _worker(args):
     import traceback
     from pyvc.runner import Report
     rep = Report(prop, tier, seed, "exploration")
+    import os, time
+    t0 = time.time()
     try:
         mod = importlib.import_module(modname)
         for d in descs:
+            t1 = time.time()
             run_instance(rep, prop, d, mod.instantiate(d), max_patterns=max_patterns)
+            if os.environ.get("VERIF_DEBUG_TIMES") and time.time() - t1 > 5:
+                print("SLOW %.1fs %s" % (time.time() - t1, json.dumps(d, sort_keys=True)), flush=True)
     except Exception:
         rep.crashes.append(traceback.format_exc()[-2000:])
+    if os.environ.get("VERIF_DEBUG_TIMES"):
+        print("TASK %.1fs n=%d maxp=%d first=%s" % (time.time() - t0, len(descs), max_patterns, json.dumps(descs[0], sort_keys=True)[:100]), flush=True)
     return dict(violations=rep.violations, undecided=rep.undecided, crashes=rep.crashes, evaluations=rep.evaluations,
                 distinct=list(rep.distinct), samples=rep.samples)
 
@@ -239,17 +246,21 @@ def run_parallel(rep, prop, modname, descs, max_patterns=1 << 17, nproc=16):
         seq = []
         for d in hist:
             seq += [d, _t(d), d]
-        seqs = [seq, list(reversed(seq))]
+        # split into runs of at most 36 instances (12 triples) so that no single process becomes the long pole;
+        # state carried between calls shows between neighbours, which stay together
+        runs = [seq[i:i + 36] for i in range(0, len(seq), 36)]
+        seqs = runs + [list(reversed(r)) for r in runs]
     others = [d for d in descs if not ("grid" in d or "frame" in d)]
     others = others[:: max(1, len(others) // 150)]
     if others:
         seqs += [others + list(reversed(others))]
     tasks += [(modname, prop, sq, rep.tier, rep.seed, 192) for sq in seqs]
     # two postings on one solver (see run_instance): a sample of all instances, the deep ones included
-    tw = [d for d in descs if d.get("deep")] + [d for d in descs if not d.get("deep")][:: max(1, len(descs) // 120)]
+    quick = rep.tier == "quick"
+    tw = [d for d in descs if d.get("deep") and not d.get("weave")] + [d for d in descs if not d.get("deep")][:: max(1, len(descs) // (40 if quick else 200))]
     tw = [dict(d, twice=True) for d in tw]
     ntw = min(len(tw), nproc) or 1
-    tasks += [(modname, prop, tw[i::ntw], rep.tier, rep.seed, 512) for i in range(ntw) if tw[i::ntw]]
+    tasks += [(modname, prop, tw[i::ntw], rep.tier, rep.seed, 96 if quick else 1024) for i in range(ntw) if tw[i::ntw]]
     rep.coverage["two_postings_on_one_solver"] = len(tw)
     rep.coverage["history_sequences"] = [len(sq) for sq in seqs]
     seen = set(v["signature"] for v in rep.violations)
